@@ -4256,8 +4256,17 @@ notify_disconnected_and_dispatch_complete_unlocked (DBusConnection *connection)
   
   if (connection->disconnect_message_link != NULL)
     {
+      DBusList *disconnect_message_link;
+
       _dbus_verbose ("Sending disconnect message\n");
-      
+
+      /* Take the link before doing anything else: completing the pending
+       * calls drops the connection lock, and another thread that notices
+       * the disconnection meanwhile must not queue the message as well.
+       */
+      disconnect_message_link = connection->disconnect_message_link;
+      connection->disconnect_message_link = NULL;
+
       /* If we have pending calls, queue their timeouts - we want the Disconnected
        * to be the last message, after these timeouts.
        */
@@ -4267,8 +4276,7 @@ notify_disconnected_and_dispatch_complete_unlocked (DBusConnection *connection)
        * and all real messages have been queued up.
        */
       _dbus_connection_queue_synthesized_message_link (connection,
-                                                       connection->disconnect_message_link);
-      connection->disconnect_message_link = NULL;
+                                                       disconnect_message_link);
 
       return DBUS_DISPATCH_DATA_REMAINS;
     }
